@@ -740,7 +740,7 @@ def _alarm(signum, frame):
     raise CaseTimeout()
 
 
-CASE_WALL_S = 20   # watchdog only: a case that exceeds it is skipped and counted, never a verdict
+CASE_CPU_S = 15   # watchdog on the process CPU clock (load independent): a case that exceeds it is skipped and counted, never a verdict
 
 
 def execute(case, res):
@@ -752,8 +752,8 @@ def execute(case, res):
     res.count('cases/' + kind)
     with warnings.catch_warnings(), treelog.set(treelog.NullLog()), numpy.errstate(all='ignore'):
         warnings.simplefilter('ignore')
-        old = signal.signal(signal.SIGALRM, _alarm)
-        signal.setitimer(signal.ITIMER_REAL, CASE_WALL_S)
+        old = signal.signal(signal.SIGPROF, _alarm)
+        signal.setitimer(signal.ITIMER_PROF, CASE_CPU_S)
         try:
             MONITORS[kind](case, res)
         except CaseTimeout:
@@ -764,8 +764,8 @@ def execute(case, res):
             res.count('harness-exceptions')
             res.note('harness exception in case %d: %s' % (case.get('index', -1), traceback.format_exc()[-400:]))
         finally:
-            signal.setitimer(signal.ITIMER_REAL, 0)
-            signal.signal(signal.SIGALRM, old)
+            signal.setitimer(signal.ITIMER_PROF, 0)
+            signal.signal(signal.SIGPROF, old)
 
 
 def run_units(units, ctx):
@@ -929,7 +929,7 @@ def finalize(m, tier, seed):
     if ran < .4 * n:
         inc = f'only {ran} of {n} cases ran before the deadline'
     elif c.get('watchdog-skipped', 0) > .02 * n:
-        inc = f"{c.get('watchdog-skipped')} cases hit the {CASE_WALL_S}s per-case wall watchdog"
+        inc = f"{c.get('watchdog-skipped')} cases hit the {CASE_CPU_S}s per-case CPU-time watchdog"
     elif c.get('harness-exceptions', 0) > .01 * n:
         inc = f"{c.get('harness-exceptions')} harness exceptions"
     elif low:
